@@ -316,6 +316,25 @@ def gen_scalar(repo):
     return m
 
 
+def gen_args(repo):
+    """T12: the integer-argument converters of nitypes/_arguments.py over the kinds of object a caller can pass (`Py.IntArg`)"""
+    m = T.Module(f"{repo}/src/nitypes/_arguments.py", "Gen.Args")
+    m.extra_imports = ["NiVerif.Py.Args"]
+    m.translate_int_arg_function("arg_to_int", "arg_to_int")
+    m.translate_int_arg_function("arg_to_uint", "arg_to_uint")
+    return m
+
+
+def gen_vector(repo):
+    """T13: the mutating methods of nitypes.vector.Vector over argument objects"""
+    m = T.Module(f"{repo}/src/nitypes/vector.py", "Gen.Vector")
+    m.extra_imports = ["NiVerif.Model.VectorArgs"]
+    m.translate_list_method("Vector", "__setitem__", "setitem")
+    m.translate_list_method("Vector", "insert", "insert", index_is_int=True)
+    m.translate_list_method("Vector", "__delitem__", "delitem")
+    return m
+
+
 MODULES = [
     # (output file, builder, dependencies by output name)
     ("TimeValueTuple", lambda repo, deps: gen_time_value_tuple(repo), []),
@@ -334,6 +353,8 @@ MODULES = [
     ("TimingArgs", lambda repo, deps: gen_timing_args(repo, deps["Irregular"]), ["Irregular"]),
     ("Regular", lambda repo, deps: gen_regular(repo), []),
     ("Scalar", lambda repo, deps: gen_scalar(repo), []),
+    ("Args", lambda repo, deps: gen_args(repo), []),
+    ("Vector", lambda repo, deps: gen_vector(repo), []),
 ]
 
 
